@@ -8,7 +8,12 @@ pub struct Rng(pub u64);
 
 impl Rng {
     pub fn new(seed: u64) -> Self {
-        Rng(seed.wrapping_mul(0x9E3779B97F4A7C15).wrapping_add(0x1234567))
+        // run the seed through the output mix: the state advances by a constant, so using the
+        // seed (times a constant) directly would make nearby seeds shifted copies of one stream
+        let mut r = Rng(seed.wrapping_mul(0x9E3779B97F4A7C15).wrapping_add(0x1234567));
+        let a = r.next();
+        let b = r.next();
+        Rng(a ^ b.rotate_left(32))
     }
     pub fn next(&mut self) -> u64 {
         self.0 = self.0.wrapping_add(0x9E3779B97F4A7C15);
